@@ -22,12 +22,21 @@ import Desverif.Model.NdlInst
 namespace Ndl
 namespace Spec
 
+/-- no string occurs twice -/
+def allDistinct : List Str → Bool
+  | [] => true
+  | a :: l => !l.contains a && allDistinct l
+
 def unsupported (d : Def) : Bool :=
-  (d.modules.map (·.1.ident)).eraseDups.length ≠ d.modules.length ||
+  !allDistinct (d.modules.map (·.1.ident)) ||
   d.modules.any (fun km => km.1.args.any fun a => d.modules.any fun km' => km'.1.ident = a.binding) ||
   d.modules.any (fun km => match km.2.inherit with
     | some p => d.modules.any fun km' => km'.1.ident = p && !km'.1.args.isEmpty
     | none => false)
+
+/-- no submodule type carries type arguments (generic modules may be declared, not instantiated) -/
+def noTypeArgs (d : Def) : Bool :=
+  d.modules.all fun km => km.2.submodules.all fun s => s.2.args.isEmpty
 
 def lookupModule (d : Def) (name : Str) : Except Fail (TypClause GenericsDef × ModuleDef) :=
   match d.modules.find? (fun km => km.1.ident = name) with
@@ -58,8 +67,11 @@ def expandEndpoint : List FieldDef → List (FieldDef × Node) → List FieldDef
     | none => kerr .unknownSubmoduleInConnection [s.display]
     | some sub => do
       let is ← indices sub.1 s
-      let tails ← expandEndpoint (t :: rest) sub.2.subs sub.2.gates
-      .ok (is.flatMap fun a => tails.map fun tl => a :: tl)
+      -- (an empty cluster denotes no gates, whatever follows)
+      if is.isEmpty then .ok []
+      else do
+        let tails ← expandEndpoint (t :: rest) sub.2.subs sub.2.gates
+        .ok (is.flatMap fun a => tails.map fun tl => a :: tl)
 
 /-- the connections a `connections:` entry denotes -/
 def expandConn (links : List (Str × Link)) (subs : List (FieldDef × Node)) (gates : List FieldDef)
@@ -71,9 +83,9 @@ def expandConn (links : List (Str × Link)) (subs : List (FieldDef × Node)) (ga
     match c.link with
     | none => .ok ((l.zip r).map fun p => ⟨p.1, p.2, none⟩)
     | some name =>
-      match links.find? (fun kv => kv.1 = name) with
+      match links.lookup name with
       | none => kerr .unknownLink [name]
-      | some kv => .ok ((l.zip r).map fun p => ⟨p.1, p.2, some kv.2⟩)
+      | some v => .ok ((l.zip r).map fun p => ⟨p.1, p.2, some v⟩)
 
 /-- a module that can be used as a type without arguments -/
 def plain (ev : Str → Except Fail (Node × List GenericsDef)) (name : Str) : Except Fail Node := do
@@ -122,30 +134,37 @@ def ownDecls (d : Def) (name : Str) : List (FieldDef × TypClause Str) :=
   | some km => km.2.submodules
   | none => []
 
-/-- ⟦name⟧: contents of a module (generic parameters as placeholders) and its parameters -/
+/-- the contents a module inherits -/
+def parentOf (ev : Str → Except Fail (Node × List GenericsDef)) : Option Str → Except Fail Node
+  | none => .ok (.mk [] [] [] [])
+  | some p => do
+    let r ← ev p
+    .ok r.1
+
+/-- ⟦name⟧ given the meaning `ev` of the modules it refers to: contents of the module (generic
+    parameters as placeholders) and its parameters -/
+def bodyOf (d : Def) (ev : Str → Except Fail (Node × List GenericsDef)) (name : Str) :
+    Except Fail (Node × List GenericsDef) := do
+  let km ← lookupModule d name
+  if !allDistinct (km.1.args.map (·.binding)) then kerr .symbolAlreadyDefined [name]
+  else if km.2.gates.any (fun g => g.kard = .cluster 0) then kerr .invalidGate [name]
+  else if km.2.submodules.any (fun s => s.1.kard = .cluster 0) then kerr .invalidSubmodule [name]
+  else do
+    -- bounds must denote something
+    let _ ← km.1.args.mapM fun a => ev a.bound
+    let own ← km.2.submodules.mapM fun (s : FieldDef × TypClause Str) => do
+      let n ← evalType ev (ownDecls d) km.1.args s.2
+      .ok (s.1, n)
+    let parent ← parentOf ev km.2.inherit
+    let conns ← km.2.connections.mapM
+      (expandConn d.links (own ++ parent.subs) (extendSet km.2.gates.eraseDups parent.gates))
+    .ok (.mk name (own ++ parent.subs) (extendSet km.2.gates.eraseDups parent.gates)
+      (parent.conns ++ conns.flatten), km.1.args)
+
+/-- ⟦name⟧ by recursion over the references; `fuel` bounds their depth -/
 def evalBody (d : Def) : Nat → Str → Except Fail (Node × List GenericsDef)
   | 0, name => kerr .unresolvableDependency [name]
-  | fuel + 1, name => do
-    let km ← lookupModule d name
-    let key := km.1
-    let m := km.2
-    if (key.args.map (·.binding)).eraseDups.length ≠ key.args.length then
-      kerr .symbolAlreadyDefined [name]
-    else if m.gates.any (fun g => g.kard = .cluster 0) then kerr .invalidGate [name]
-    else if m.submodules.any (fun s => s.1.kard = .cluster 0) then kerr .invalidSubmodule [name]
-    else do
-      -- bounds must denote something
-      let _ ← key.args.mapM fun a => evalBody d fuel a.bound
-      let own ← m.submodules.mapM fun (s : FieldDef × TypClause Str) => do
-        let n ← evalType (evalBody d fuel) (ownDecls d) key.args s.2
-        .ok (s.1, n)
-      let parent ← match m.inherit with
-        | none => (.ok (Node.mk [] [] [] []) : Except Fail Node)
-        | some p => do let r ← evalBody d fuel p; .ok r.1
-      let gates := m.gates.eraseDups ++ parent.gates.filter (fun g => !m.gates.contains g)
-      let subs := own ++ parent.subs
-      let conns ← m.connections.mapM (expandConn d.links subs gates)
-      .ok (.mk name subs gates (parent.conns ++ conns.flatten), key.args)
+  | fuel + 1, name => bodyOf d (evalBody d fuel) name
 
 /-- ⟦d⟧ as a tree: every module must denote, the result is the entry module -/
 def denoteTree (d : Def) : Except Fail Node := do
@@ -198,13 +217,15 @@ def wire : List (Str × Conn) → World → Except Fail World
     let w ← connect w a b ch
     wire r w
 
+/-- a freshly created module: its gate clusters, nothing connected -/
+def fresh (m : Str × Str × List FieldDef) : ModInst := ⟨m.1, m.2.1, m.2.2.flatMap mkCluster⟩
+
 def worldOf (reg : Str → Bool) (n : Node) : Except Fail World :=
-  let mods := modsOf [] n
-  if (mods.map (·.1)).eraseDups.length ≠ mods.length then .error (.internal "two modules at one path")
+  if !allDistinct ((modsOf [] n).map (·.1)) then .error (.internal "two modules at one path")
   else
-    match mods.find? (fun m => !reg m.2.1) with
+    match (modsOf [] n).find? (fun m => !reg m.2.1) with
     | some m => kerr .missingRegistrySymbol [m.1, m.2.1]
-    | none => wire (reqsOf [] n) (mods.map fun m => ⟨m.1, m.2.1, m.2.2.flatMap mkCluster⟩)
+    | none => wire (reqsOf [] n) ((modsOf [] n).map fresh)
 
 /-- ⟦d⟧ -/
 def denote (reg : Str → Bool) (d : Def) : Except Fail World := do
